@@ -50,6 +50,8 @@ type Env struct {
 	// OnCleanup hooks run when the run is over (free-run phase): release what
 	// the harness itself keeps parked for the whole run.
 	OnCleanup []func()
+	// NeverCancel: the run's context has no Done channel.
+	NeverCancel bool
 }
 
 // Failf records the first violation and stops the run.
@@ -174,6 +176,10 @@ func (e *Env) Fault(kind string) {
 // Cancel cancels the run's context (once) and records where.
 func (e *Env) Cancel(how string) {
 	if e.Cancelled.Load() {
+		return
+	}
+	if e.NeverCancel {
+		e.Probe("cancel_requested_on_never_cancellable_context")
 		return
 	}
 	e.CancelSeq = e.S.Seq
